@@ -3,6 +3,7 @@ import Martian.Lemmas.MessageView
 import Martian.Props.C15.Isolation
 import Martian.Props.C15.Flags
 import Martian.Props.C15.Facts
+import Martian.Props.C15.Faults
 /-!
 C15 — Logging and snapshotting never change the message that is forwarded.
 Only property theorems and non-vacuity examples live here.
